@@ -267,3 +267,32 @@ Theorem package_resolve_eq_refuted_nameless_self_reference :
   /\ require_resolve (fun _ => false) w_nameless_fs [] [] (s_ "@foo") = NFile (pw_ ["node_modules"; "@foo"; "index.js"]).
 Proof. exact refuted_nameless_self_reference. Qed.
 Print Assumptions package_resolve_eq_refuted_nameless_self_reference.
+
+(* ---- ES-module entry (import): relative and absolute specifiers, every file
+   system, no hypothesis: whenever Node's ESM_RESOLVE resolves (no extension
+   search, no directory index), esbuild resolves to the same file.
+   NOT YET PROVED for import: bare and "#" specifiers (PACKAGE_RESOLVE with the
+   legacy main lookup against loadNodeModules); the proof attempt shows that it
+   additionally needs: no file node_modules/<name>(.js|.json|.node) next to or
+   instead of the package directory (esbuild, like CommonJS, tries it first),
+   no node_modules/node_modules directory, and an "imports" map in the scope of a
+   "#" specifier (Node: Package Import Not Defined; esbuild goes on to
+   node_modules/#...).  That branch is tied by correspondence only
+   (import_resolve vs import.meta.resolve, Walk.resolve vs esbuild). *)
+Theorem import_relative_partial : forall builtin fs user dir x,
+  builtin x = false -> is_package_path x = false ->
+  agree_import (resolve builtin fs KImport user dir x) (import_resolve builtin fs user dir x).
+Proof. exact import_relative_all. Qed.
+Print Assumptions import_relative_partial.
+
+(* the import statement for bare specifiers is FALSE of the faithful model
+   without the "no shadowing file" hypothesis (finding D14, replayed by the
+   harness witness "import-file-shadows-package-directory") *)
+Theorem import_resolve_eq_refuted_file_shadows_package :
+  wf_fsb w_shadow_fs = true /\ no_tsb w_shadow_fs = true /\ no_case_collision w_shadow_fs = true
+  /\ bare_ok (s_ "dep") = true
+  /\ resolve (fun _ => false) w_shadow_fs KImport [] [] (s_ "dep") = RFile (pw_ ["node_modules"; "dep.js"])
+  /\ import_resolve (fun _ => false) w_shadow_fs [] [] (s_ "dep") = NFile (pw_ ["node_modules"; "dep"; "main.js"])
+  /\ require_resolve (fun _ => false) w_shadow_fs [] [] (s_ "dep") = NFile (pw_ ["node_modules"; "dep.js"]).
+Proof. exact refuted_import_file_shadows_package. Qed.
+Print Assumptions import_resolve_eq_refuted_file_shadows_package.
